@@ -75,3 +75,10 @@ for _pid, _what in [('C33', 'region outlining (caller and generated routine inte
           f'For every template of a stated finite family the real {_what} is applied; original and result are interpreted symbolically and z3 decides, over all input values at the instance sizes, whether any observable can differ (a transformed program that refers to unbound names / mismatching argument lists is a candidate decided by the gfortran replay).',
           TV_NOTE + (' TypeboundProcedureCallTransformation is outside (type-bound calls are not interpreted).' if _pid == 'C34' else ''),
           'translation validation: symbolic interpretation of original and transformed IR + SMT equivalence (z3), compiler replay', 'E-SMT', 'DESIGN.md#C28-C34')
+claim('C37', 'translation_validation',
+      'Driver + kernel call trees (6 kernel shapes incl. nested kernels, temporaries, vector-section notation, conditionals) are transformed by the SCC V/S vector and V/S hoist pipelines with scheduler items exactly as the repository tests do; original and transformed call tree (entry = driver, pragmas = comments) are interpreted symbolically and z3 decides whether any input at the instance sizes gives different driver results; models are replayed with gfortran -fcheck=bounds.',
+      TV_NOTE + ' Outside: CUF / low-level pipelines.', 'translation validation: symbolic interpretation + SMT equivalence (z3), compiler replay', 'E-SMT', 'DESIGN.md#C37')
+claim('C38', 'translation_validation',
+      'The C37 call trees that have temporaries are transformed by the hoisting and stack pipelines (V/S hoist, direct-index stack V/S, Fortran-pointer stack, raw stack); z3 decides equivalence of driver results for every input and whether the transformed program can trap on the stack / hoisted arrays (= not enough storage on some path).',
+      TV_NOTE + ' Pointer-based allocator variants that the interpreter cannot encode are reported per run as not encoded; CONTIGUOUS on explicit-shape dummies is dropped for the gfortran replay build only.',
+      'translation validation: symbolic interpretation + SMT equivalence and trap reachability (z3), compiler replay', 'E-SMT', 'DESIGN.md#C37')
